@@ -314,6 +314,8 @@ const (
 	cancelQuery                    // call Query.Cancel() from another goroutine
 	cancelBlock                    // the storage blocks until cancelled; cancel comes from a timer
 	cancelExpire                   // the context's deadline passes
+	cancelBlockAll                 // every storage interaction from the k-th on blocks until cancelled
+	cancelQueryBlock               // Query.Cancel() from another goroutine while the storage blocks until cancelled
 )
 
 func cancelOnce(c *Case, k int, mode cancelMode) (res Result, hung bool, leak string, st *MemStorage, fired bool) {
@@ -331,6 +333,29 @@ func cancelOnce(c *Case, k int, mode cancelMode) (res Result, hung bool, leak st
 	}
 	var firedFlag int32
 	st.SetHook(func(kind string, n int64, info any) Action {
+		if mode == cancelBlockAll || mode == cancelQueryBlock {
+			if n < int64(k) || kind == EvClose {
+				return Action{}
+			}
+			if atomic.CompareAndSwapInt32(&firedFlag, 0, 1) {
+				if mode == cancelBlockAll {
+					go func() { time.Sleep(5 * time.Millisecond); cancel() }()
+				} else {
+					go func() { time.Sleep(2 * time.Millisecond); q.Cancel() }()
+				}
+			}
+			// the query's own context is not visible here: wait for the outer one or for the
+			// engine to give up on this callback's goroutine (bounded wait, then report the error)
+			select {
+			case <-ctx.Done():
+			case <-qctxDone(q):
+			case <-time.After(8 * time.Second):
+			}
+			if errorCapable[kind] {
+				return Action{Err: context.Canceled}
+			}
+			return Action{}
+		}
 		if n >= int64(k) && atomic.CompareAndSwapInt32(&firedFlag, 0, 1) {
 			switch mode {
 			case cancelCtx:
@@ -365,6 +390,11 @@ func cancelOnce(c *Case, k int, mode cancelMode) (res Result, hung bool, leak st
 	return res, false, leak, st, atomic.LoadInt32(&firedFlag) == 1
 }
 
+// qctxDone: the storage cannot see the context Exec derives; a blocking storage is modelled as one
+// that unblocks when the querier it was opened with is told to stop, which our MemStorage learns
+// from the context passed to Querier().
+func qctxDone(q any) <-chan struct{} { return lastQuerierCtxDone() }
+
 func cancelCase(c *Case, lean *LeanDriver) Verdict {
 	v := baseVerdict(c, "cancel")
 	kinds, clean := countEvents(c)
@@ -382,7 +412,7 @@ func cancelCase(c *Case, lean *LeanDriver) Verdict {
 		return v
 	}
 	r := rand.New(rand.NewSource(int64(len(kinds))*17 + c.Start))
-	modes := []cancelMode{cancelCtx, cancelQuery, cancelBlock}
+	modes := []cancelMode{cancelCtx, cancelQuery, cancelBlock, cancelBlockAll, cancelQueryBlock}
 	for i, k := range positions(len(kinds), tierBudget(), r) {
 		mode := modes[i%len(modes)]
 		res, hung, leak, st, fired := cancelOnce(c, k, mode)
@@ -568,6 +598,26 @@ func seqCase(c *Case, lean *LeanDriver) Verdict {
 			// allows it to reuse their memory once the query is closed
 			_, nerr := d.NewQuery(NewThanos(d, EngOpts{DisableFallback: true}), NewMemStorage(nil))
 			nativeQ := nerr == nil
+			if mode == 1 && nativeQ {
+				// a query that is cancelled in the middle of its execution
+				cctx, ccancel := context.WithCancel(ctx)
+				kk := int64(3 + r.Intn(400))
+				st.SetHook(func(kind string, n int64, info any) Action {
+					if n == kk {
+						ccancel()
+					}
+					return Action{}
+				})
+				q.Exec(cctx)
+				ccancel()
+				q.Close()
+				cancel()
+				if msg := recheck("a query cancelled during execution"); msg != "" {
+					v.Other = msg
+					return v
+				}
+				continue
+			}
 			raw := q.Exec(ctx)
 			got := Canon(raw, d)
 			fresh := d.Exec(ctx, NewThanos(d, EngOpts{}), NewMemStorage(cur))
@@ -639,9 +689,16 @@ func concurrentCase(c *Case, lean *LeanDriver) Verdict {
 		tie  bool
 	}
 	var jobs []job
-	for _, qs := range queries {
+	c.Opt = "default"
+	eng = NewThanos(c, EngOpts{})
+	for qi, qs := range queries {
 		d := c.clone()
 		d.Query = qs
+		if qi%2 == 1 {
+			d.QLookback = []int64{1000, 30000, 600000}[qi%3]
+		} else {
+			d.QLookback = 0
+		}
 		ctx, cancel := bg()
 		solo := d.Exec(ctx, NewThanos(d, EngOpts{}), NewMemStorage(c.Data()))
 		cancel()
